@@ -105,24 +105,24 @@ func Register(name string, f HarnessFunc) { harnesses[name] = f }
 
 // RunResult is the outcome of one run.
 type RunResult struct {
-	Seed        uint64               `json:"seed"`
-	Steps       int                  `json:"steps"`
-	SimNS       int64                `json:"sim_ns"`
-	Fingerprint uint64               `json:"fingerprint"`
-	Violations  []simrt.Violation    `json:"violations,omitempty"`
-	Counters    map[string]int       `json:"counters,omitempty"`
-	TimedOut    bool                 `json:"timed_out,omitempty"`
-	StepLimit   bool                 `json:"step_limit,omitempty"`
-	Nontrivial  bool                 `json:"nontrivial"`
-	Sample      map[string]any       `json:"sample,omitempty"`
-	Tape        map[string][]int     `json:"tape,omitempty"`
-	Trace       []string             `json:"trace,omitempty"`
-	Tasks       []simrt.TaskInfo     `json:"tasks,omitempty"`
-	Sites       map[int]int          `json:"-"`
-	Switches    map[[2]int]int       `json:"-"`
-	SitesByName map[string]int       `json:"sites_by_name,omitempty"`
-	SwitchList  [][2]int             `json:"switch_list,omitempty"`
-	Infra       string               `json:"infra,omitempty"` // harness/infrastructure failure, never a violation
+	Seed        uint64            `json:"seed"`
+	Steps       int               `json:"steps"`
+	SimNS       int64             `json:"sim_ns"`
+	Fingerprint uint64            `json:"fingerprint"`
+	Violations  []simrt.Violation `json:"violations,omitempty"`
+	Counters    map[string]int    `json:"counters,omitempty"`
+	TimedOut    bool              `json:"timed_out,omitempty"`
+	StepLimit   bool              `json:"step_limit,omitempty"`
+	Nontrivial  bool              `json:"nontrivial"`
+	Sample      map[string]any    `json:"sample,omitempty"`
+	Tape        map[string][]int  `json:"tape,omitempty"`
+	Trace       []string          `json:"trace,omitempty"`
+	Tasks       []simrt.TaskInfo  `json:"tasks,omitempty"`
+	Sites       map[int]int       `json:"-"`
+	Switches    map[[2]int]int    `json:"-"`
+	SitesByName map[string]int    `json:"sites_by_name,omitempty"`
+	SwitchList  [][2]int          `json:"switch_list,omitempty"`
+	Infra       string            `json:"infra,omitempty"` // harness/infrastructure failure, never a violation
 }
 
 func init() {
@@ -342,20 +342,20 @@ func RunBatch(t *testing.T, hname, prop string, params map[string]string, base u
 
 // ReplayFile is the on-disk format of a violation witness.
 type ReplayFile struct {
-	Property string            `json:"property"`
-	Harness  string            `json:"harness"`
-	Params   map[string]string `json:"params,omitempty"`
-	Class    string            `json:"class"`
-	Key      string            `json:"key"`
-	Seed     uint64            `json:"seed"`
-	Tape     map[string][]int  `json:"tape"`
-	Detail   string            `json:"detail,omitempty"`
-	Sample   map[string]any    `json:"sample,omitempty"`
-	Trace    []string          `json:"trace,omitempty"`
-	Tasks    []simrt.TaskInfo  `json:"tasks,omitempty"`
-	TreeRev  string            `json:"tree_rev,omitempty"`
-	Minimised bool             `json:"minimised"`
-	Reruns   int               `json:"minimise_reruns,omitempty"`
+	Property  string            `json:"property"`
+	Harness   string            `json:"harness"`
+	Params    map[string]string `json:"params,omitempty"`
+	Class     string            `json:"class"`
+	Key       string            `json:"key"`
+	Seed      uint64            `json:"seed"`
+	Tape      map[string][]int  `json:"tape"`
+	Detail    string            `json:"detail,omitempty"`
+	Sample    map[string]any    `json:"sample,omitempty"`
+	Trace     []string          `json:"trace,omitempty"`
+	Tasks     []simrt.TaskInfo  `json:"tasks,omitempty"`
+	TreeRev   string            `json:"tree_rev,omitempty"`
+	Minimised bool              `json:"minimised"`
+	Reruns    int               `json:"minimise_reruns,omitempty"`
 }
 
 // LoadReplay reads a replay file.
